@@ -7,7 +7,7 @@
 //   node n<idx> <hash> <name>   ids below are n<idx> for these, raw decimal hashes otherwise (0 = none)
 //   ev rup <i> | ev rdown <i> | ev up <i> <j> | ev dead <i> <j> | ev fetch <i> <j>
 //   ev late <i> <j>             the ribUpdate started for neighbour j runs only now, after the preceding `ev dead i j`
-//   ev clock <ms> | ev sync <i> <j> <s> | ev data|olddata <i> <j> <s> | ev hold <j> | ev sweep <i> <dead ms>
+//   ev clock <ns> | ev sync <i> <j> <s> | ev data|olddata <i> <j> <s> | ev hold <j> | ev sweep <i> <dead ns>
 //                               the sequence-number / liveness layer through the real handlers (see ProtoModel.v)
 //   ev nack|ftimeout <i> <j> <s>  the outstanding fetch of i for (j, s) fails;  rft <i> <j> <s> <0|1>: was it expressed again
 //   ev snap <j>                 store j's current advertisement;  ev deliver <i> <j>: i processes the stored one
@@ -352,7 +352,7 @@ func (w *world) evRdown(i int) {
 
 // the virtual clock, for the events whose outcome depends on time (neighbour creation, pings, sweeps)
 func (w *world) evClock() {
-	fmt.Fprintf(w.w, "ev clock %d\n", time.Now().UnixMilli())
+	fmt.Fprintf(w.w, "ev clock %d\n", time.Now().UnixNano())
 	w.evc++
 }
 
@@ -747,7 +747,7 @@ func (w *world) evSweep(i int) {
 		return
 	}
 	w.evClock()
-	fmt.Fprintf(w.w, "ev sweep %s %d\n", w.id(w.hash[i]), deadIntervalMs)
+	fmt.Fprintf(w.w, "ev sweep %s %d\n", w.id(w.hash[i]), int64(deadIntervalMs)*1000000)
 	w.evc++
 	w.rt[i].Vf18CheckDead()
 	w.settle()
@@ -1623,8 +1623,8 @@ func TestReplay(t *testing.T) {
 				case "clock":
 					// the replay keeps the virtual clock of the recorded run
 					if t, err := strconv.ParseInt(p[2], 10, 64); err == nil {
-						if d := t - time.Now().UnixMilli(); d > 0 {
-							time.Sleep(time.Duration(d) * time.Millisecond)
+						if d := t - time.Now().UnixNano(); d > 0 {
+							time.Sleep(time.Duration(d))
 						}
 					}
 				case "sync":
